@@ -1,5 +1,6 @@
 import Martian.Skel
 import Martian.Generated.Proxy
+import Martian.Generated.Tunnel
 /-!
 C04 — structural facts of `proxy.go` (regenerated from the source on every check) that
 `Model/Tunnel.lean` transcribes: the 200 is written and flushed before the pumps start; the
@@ -7,23 +8,50 @@ client→target pump reads from `brw` (so bytes that arrived with the CONNECT go
 the target connection directly, the target→client pump writes to the client connection directly;
 each pump half-closes its destination when its copy ends, whatever the reason; both are joined;
 the target connection is closed on return; with a downstream proxy the bytes read ahead with its
-2xx head are handed over as the response body.
+2xx head are handed over as the response body; no SO_LINGER and no deadline is set on either
+tunnel connection (the final `Close` of both is graceful: `Tunnel.releaseActs … .graceful`).
 -/
 namespace Martian.Props.C04
 open Martian Skel
 open Martian.Generated.Proxy (connectBlind connect)
 
+/-- The 200 is written and flushed, then both copies are started (each exactly once, in either
+order), then the handler returns `errClose`; the target connection is closed by the deferred
+`Close` only. (Order of the two `go` statements, names of temporaries and the spelling of the
+`closeWrite` helper are not pinned.) -/
 theorem facts_tunnel_pumps :
-    hasBlock ["set res.ContentLength = -1", "call res.Write", "call brw.Flush",
-              "func closeWrite {", "if cw, ok := c.(interface{ CloseWrite() error }); ok {", "call cw.CloseWrite", "}", "}",
-              "func copySync {", "call io.Copy", "call closeWrite", "}",
-              "go copySync(cconn, brw, cconn, donec)", "go copySync(conn, cconn, conn, donec)", "return errClose"] connectBlind = true ∧
+    hasSeq ["set res.ContentLength = -1", "call res.Write", "call brw.Flush",
+            "go copySync(cconn, brw, cconn, donec)", "return errClose"] connectBlind = true ∧
+    hasSeq ["set res.ContentLength = -1", "call res.Write", "call brw.Flush",
+            "go copySync(conn, cconn, conn, donec)", "return errClose"] connectBlind = true ∧
+    count "go copySync(cconn, brw, cconn, donec)" connectBlind = 1 ∧
+    count "go copySync(conn, cconn, conn, donec)" connectBlind = 1 ∧
     count "defer cconn.Close" connectBlind = 1 ∧ count "call cconn.Close" connectBlind = 0 := by
+  decide
+
+/-- The `closeWrite` helper half-closes: its body calls a method named `CloseWrite` (behind a type
+assertion) and no `Close`. -/
+theorem facts_closeWrite_half_closes :
+    Martian.Generated.Tunnel.closeWriteCalls = ["CloseWrite"] := by
   decide
 
 theorem facts_downstream_read_ahead_handed_over :
     hasBlock ["if res.StatusCode/100 == 2 {", "call pbr.Peek", "set res.Body = ioutil.NopCloser(bytes.NewReader(b))", "}",
               "return res, conn, nil"] connect = true := by
+  decide
+
+/-- `copySync` half-closes its destination unconditionally: `closeWrite` is not inside the
+`if err != nil` that follows `io.Copy` (the model's `Pump.step` treats EOF, read error and write
+error alike). -/
+theorem facts_half_close_whatever_the_reason :
+    hasBlock ["func copySync {", "call io.Copy", "call closeWrite", "}"] connectBlind = true ∧
+    count "call closeWrite" connectBlind = 1 ∧ count "call io.Copy" connectBlind = 1 := by
+  decide
+
+/-- Nothing in the blind branch or in `connect` calls SetLinger / Set(Read|Write)Deadline. -/
+theorem facts_tunnel_sockopts :
+    Martian.Generated.Tunnel.tunnelSockopts = [] ∧
+    Martian.Generated.Tunnel.blindStatementsScanned = true := by
   decide
 
 end Martian.Props.C04
